@@ -16,7 +16,8 @@ RULE = ('three aligned criteria columns A,B,C (rows 1-8) over {int, float, 0, ne
         'metacharacters, numeric text, blank} + numeric target column D (some TRUE/FALSE/blank) + shorter/longer/offset columns; '
         'criteria: number, text, "op number" for 6 operators, "=text", "<>text", "op"&cell, cell reference, wildcards (? * ~? ~* and '
         'regex-special characters) ; SUMIF with and without target (derived geometry), SUMIFS / COUNTIFS / AVERAGEIFS with 1-3 pairs, '
-        'aligned and mis-sized; contents re-drawn through overrides. Non-trivial: at least one position is accepted and at least one '
+        'aligned and mis-sized, over column vectors, horizontal vectors and 2-D blocks (mis-sized also with equal row counts but different '
+        'column counts and vector against block); contents re-drawn through overrides. Non-trivial: at least one position is accepted and at least one '
         'rejected by the criteria, or the ranges are mis-sized; distinct by (formula, valuation)')
 ASSUMPTIONS = ['vf/xlref criterion semantics = the clauses of the statement', 'booleans and dates are not placed in criteria ranges; text is not placed in the target range',
                'blank vs numeric criterion, numeric text vs number, boolean target cells: either reading accepted']
@@ -152,6 +153,26 @@ def make_book(rng):
             put(f'=COUNTIFS({sep.join(pairs)})', missized=missized)
         else:
             put(f'=AVERAGEIFS({rng.choice(["D1:D8", "E1:E8"])}{sep}{sep.join(pairs)})', missized=missized)
+    # other shapes than column vectors: horizontal vectors (rows 12/13) and 2-D blocks; aligned ones must fold like their
+    # row-major flattening, mis-sized ones (same number of rows, different number of columns; vector against block) must fail
+    for c in range(1, 7):
+        v = crit_cell(rng, 'A')
+        if v is not None:
+            cells[wbspec.a1(12, c)] = v
+        cells[wbspec.a1(13, c)] = rng.randrange(1, 60)
+    shapes_ok = [('A13:F13', 'A12:F12'), ('B13:E13', 'B12:E12'), ('D1:E4', 'A1:B4'), ('D3:E8', 'B3:C8'), ('E1:E8', 'A1:A8'), ('D2:E3', 'A6:B7')]
+    shapes_bad = [('A13:F13', 'A12:C12'), ('A13:C13', 'A12:F12'), ('D1:E4', 'A1:A4'), ('D1:D4', 'A1:B4'), ('D1:E4', 'A1:B3'), ('A13:F13', 'A1:A5'),
+                  ('D1:E3', 'A1:C3'), ('B13:E13', 'B12:F12')]
+    for _ in range(14):
+        bad = rng.random() < 0.5
+        tgt, cr = rng.choice(shapes_bad if bad else shapes_ok)
+        col = 'A' if cr[0] in 'A' or '12' in cr else 'B'
+        c1 = criterion(rng, col)
+        fn = rng.choice(['SUMIFS', 'COUNTIFS', 'AVERAGEIFS'])
+        if fn == 'COUNTIFS':
+            put(f'=COUNTIFS({tgt},">0",{cr},{c1})', missized=bad)
+        else:
+            put(f'={fn}({tgt},{cr},{c1})', missized=bad)
     return wbspec.spec(wbspec.sheet('S', cells)), forms
 
 
